@@ -995,6 +995,15 @@ func runC19Angle(c *Ctx) {
 					if x.Op == token.ADD || x.Op == token.SUB {
 						return carries(x.X, d+1) || carries(x.Y, d+1)
 					}
+					// halving/doubling keeps the unit (phi/2 is still degrees); scaling by pi/180 does not
+					if x.Op == token.MUL || x.Op == token.QUO {
+						if k, ok := smallIntConst(x.Y); ok && k != 0 {
+							return carries(x.X, d+1)
+						}
+						if k, ok := smallIntConst(x.X); ok && k != 0 && x.Op == token.MUL {
+							return carries(x.Y, d+1)
+						}
+					}
 				case *ssa.UnOp:
 					if x.Op == token.SUB {
 						return carries(x.X, d+1)
@@ -1019,4 +1028,16 @@ func runC19Angle(c *Ctx) {
 			c.Check(bad == "", firstValid(pos, f.Pos()), fn, "degrees reach trigonometric functions only through dtor", "every trig argument is free of unconverted degree values", bad)
 		}
 	}
+}
+
+func smallIntConst(v ssa.Value) (int64, bool) {
+	c, ok := v.(*ssa.Const)
+	if !ok || c.Value == nil {
+		return 0, false
+	}
+	f, _ := constantFloat(c)
+	if f == float64(int64(f)) && f >= -10 && f <= 10 {
+		return int64(f), true
+	}
+	return 0, false
 }
